@@ -90,7 +90,7 @@ def run(tier):
         if rc != 0:
             raise vlib.InfraError("c18-replay failed: " + err[-2000:])
         summ = json.loads(out.strip().splitlines()[-1])
-        if summ["cases"] != r.exported:
+        if summ["cases"] + summ["crashes"] != r.exported:   # (a call that crashed is recorded as a crash event and judged below)
             raise vlib.InfraError("c18-replay %s ran %d of %d cases" % (fam, summ["cases"], r.exported))
         ck.cov["evaluations"] += summ["variants"]
         ck.cov.setdefault("replayed", {})[fam] = summ
